@@ -34,6 +34,11 @@ def run(c):
         "an INSERT row is recognised by its timestamp followed by an int32 marker tag; about 1 case in 12 is a long outage "
         "(2*MaxConveyorDelay +-3 seconds on disk, two agent restarts with 0..2 pops in between, nothing acknowledged); at most 2 historic senders are busy at a time and each reuses ONE scratch pad for every second it "
         "reads from disk, as goSendHistoric does; a slow ClickHouse answer beyond ClickHouseTimeoutInsert (5 min) is not generated",
+        "op `race`: the real goInsert of the first ready bucket is held up between its oldestTime snapshot and its pop of historic "
+        "buckets (the harness holds the bucket mutex goInsert takes next) while the real ticker step advances the window again and a "
+        "historic request is handled; about 1 case in 8 starts with such a scripted race for a second at the edge of the window; "
+        "-mode=oversize (once per run): a shard with --shard-sample-budget 64 MiB gets > 12 MiB of rows in one second through the real "
+        "preProcess/sampleBucket/CompressAndFrame, a real recent sender and the real handler",
         "an INSERT counts as done iff the fake endpoint read the whole body and answered HTTP 200 (headers and texts do not count)",
         "the historic memory limit is a 50 MiB constant: the harness adds an exactly accounted ballast to historicBucketsDataSize "
         "(model unit = one generated second's compressed size, model limit 1000 units) and diffs the counter after every op",
@@ -43,7 +48,7 @@ def run(c):
     binary = c.go_build(HARNESS)
     if binary:
         gen(c, binary)
-    c.prove("SH.Props.C01", extra_files=["SH/Model/Delivery.lean", "SH/Lemmas/Delivery.lean", "SH/Lemmas/DeliveryLive.lean", "SH/Gen/C01.lean"])
+    c.prove("SH.Props.C01", extra_files=["SH/Model/Delivery.lean", "SH/Lemmas/Delivery.lean", "SH/Lemmas/DeliveryRace.lean", "SH/Lemmas/DeliveryMain.lean", "SH/Lemmas/DeliveryLive.lean", "SH/Gen/C01.lean"])
     drv = c.driver(DRIVER)
     if binary and drv:
         rc, out = c.go_run(binary, [f"-n={c.n(240, 2400)}"], timeout=1500)
@@ -55,6 +60,9 @@ def run(c):
         rc, out = c.go_run(binary, ["-mode=wakeup", f"-n={c.n(1, 4)}"], timeout=600)
         c.harness_ok(rc, out, "verif-c01 -mode=wakeup")
         c.collect(out, label="wakeup")
+        rc, out = c.go_run(binary, ["-mode=oversize", f"-n={c.n(1, 2)}"], timeout=900)
+        c.harness_ok(rc, out, "verif-c01 -mode=oversize")
+        c.collect(out, label="oversize")
 
     def search():
         if not binary:
@@ -81,7 +89,11 @@ META = {
              "set; answer_matches_sender — request ids never name two seconds; erase_trace (literal trace form of erase_after_ack) — for every "
              "operation other than a process restart, a disk record that is gone afterwards was erased because THAT operation delivered an "
              "answer with discard to the sender blocked on the request carrying the record's second, or because the second left the agent's "
-             "historic window (recorded drop); restart_erases_nothing — a restart reads every record back. LIVENESS (partial): "
+             "historic window (recorded drop); restart_erases_nothing — a restart reads every record back. tickRace is one of the model's operations (a delayed inserter pops with an old "
+             "snapshot), covered by the same induction; delayed_inserter_stale_only_older — it classes as stale only buckets older than its "
+             "snapshot minus the window, never one newer than the snapshot (decide witness for the wrapped unsigned rewrite); "
+             "sampleBudget_fits / sampleBudget_clamp_now — the sampling budget is at most half the aggregator's bucket limit for every "
+             "budget source, tied to the regenerated fact that sampleBucket clamps at the top level of its body. LIVENESS (partial): "
              "can_always_finish_partial — from every reachable state in which a second is the oldest entry of the historic queue, inside "
              "the agent's window, its primary or spare replica alive and up, accepted into that replica's historic window with no other "
              "historic bucket waiting, the explicit 3-op fault-free schedule finishOps(state) (pop, deliver, clock to oldest+shortWindow+3) "
